@@ -434,7 +434,7 @@ func (l *Lifter) bwBlock(stmts []ast.Stmt, cur *cursor, top bool) []Item {
 				if recv, c, ok := methodCall(x.Rhs[0], "MarshalBebopTo"); ok && len(c.Args) == 1 {
 					if off, ok := l.bufOffset(c.Args[0]); ok {
 						it := Item{Kind: KRec, Operand: l.op(recv), Pos: s.Pos()}
-					it.Fixed, it.FixedOK = l.fixedOf(recv)
+						it.Fixed, it.FixedOK = l.fixedOf(recv)
 						l.bwWrite(cur, off, it)
 						// advancing by the callee's return value is advancing by its Size()
 						// exactly when MarshalBebopTo returns Size() (C02/R3 on every kind).
@@ -909,7 +909,6 @@ func SzString(nodes []SzNode) string {
 	return strings.Join(parts, " ; ")
 }
 
-
 // fixedOf: the expression is a value of a generated struct type whose wire
 // size is a constant per the spec-side table (RecFixed).
 func (l *Lifter) fixedOf(e ast.Expr) (int, bool) {
@@ -929,7 +928,6 @@ func (l *Lifter) fixedOf(e ast.Expr) (int, bool) {
 	}
 	return l.RecFixed(nt.Obj().Name())
 }
-
 
 // baseStem: "Date<ticks = …>" -> "Date" (a scalar written with a conversion
 // other than the format's keeps its width).
